@@ -278,7 +278,11 @@ def _get_condition_function(outcome_position, measurement_value):
 
 
 def _map_qiskit_instr_to_pq(
-    qiskit_instruction, modes, aux_modes, clbit_positions=None
+    qiskit_instruction,
+    modes,
+    aux_modes,
+    clbit_positions=None,
+    block_qubit_indices=None,
 ):
     instruction_name = qiskit_instruction.name
     instructions = []
@@ -336,8 +340,15 @@ def _map_qiskit_instr_to_pq(
 
             condition = _get_condition_function(clbit_positions[cond[0]], value)
             for inner_instr_qiskit in block:
+                # NOTE: The i-th qubit of the block is bound to the i-th qubit of the
+                # enclosing 'if_else' instruction.
+                inner_qubit = block_qubit_indices[
+                    block.find_bit(inner_instr_qiskit.qubits[0]).index
+                ]
+                inner_modes = [2 * inner_qubit, 2 * inner_qubit + 1]
+
                 instr_list = _map_qiskit_instr_to_pq(
-                    inner_instr_qiskit, modes, aux_modes
+                    inner_instr_qiskit, inner_modes, aux_modes
                 )
                 for instr in instr_list:
                     instructions.append(instr.when(condition))
@@ -397,7 +408,7 @@ def _encode_dual_rail_from_qiskit(qc):
             number_of_measurements += 1
 
         mapped_instructions = _map_qiskit_instr_to_pq(
-            instr_qiskit, modes, aux_modes, clbit_positions
+            instr_qiskit, modes, aux_modes, clbit_positions, qubit_indices
         )
         instructions.extend(mapped_instructions)
 
